@@ -184,6 +184,9 @@ func (ck *checker) pairs() {
 			if eb := ck.equals(x.a, y.b, x.d, y.d, "argument's caches forced"); eb != e {
 				ck.violate("hidden-state", fmt.Sprintf("%s.Equals(%s) = %v, but %v when the argument is a second, separately built copy on which PType(), String(), ToKey() were called", x.d, y.d, e, eb), x.d, y.d)
 			}
+			if eb := ck.equals(x.b, y.b, x.d, y.d, "caches of both operands forced"); eb != e {
+				ck.violate("hidden-state", fmt.Sprintf("%s.Equals(%s) = %v, but %v when both operands are second, separately built copies on which PType(), DetailedValueType, String(), ToKey() were called", x.d, y.d, e, eb), x.d, y.d)
+			}
 			if i != j && (e || x.d.K == y.d.K) {
 				ck.res.Nontrivial(x.text + " ~ " + y.text)
 			}
